@@ -94,7 +94,11 @@ func init() {
 			Policy: policy, ForceCorners: a[1] == "1", Limit: time.Duration(atoi(a[2])) * time.Millisecond,
 			Seed: int64(atoi(a[3])), Size: p.Size(),
 		})
+		before := dumpPos(p) + "|" + absDump(p)
 		m := mc.GetMove(context.Background(), p)
+		if dumpPos(p)+"|"+absDump(p) != before {
+			return "input-position-modified"
+		}
 		if _, err := p.Move(m); err != nil {
 			return "illegal:" + encMove(m)
 		}
